@@ -5,6 +5,7 @@ import (
 	"errors"
 	"fmt"
 	"math/big"
+	"sync"
 
 	"github.com/vipnode/vipnode/v2/pool"
 	"github.com/vipnode/vipnode/v2/pool/store"
@@ -49,6 +50,10 @@ type PaymentService struct {
 	WithdrawFee func(*big.Int) *big.Int
 	// WithdrawMin (optional) is the minimum amount required to allow a withdraw.
 	WithdrawMin *big.Int
+
+	// mu serialises withdrawals, so that the balance which is read is the
+	// balance which gets paid and debited.
+	mu sync.Mutex
 }
 
 func (p *PaymentService) verify(sig string, method string, wallet string, nonce int64, args ...interface{}) error {
@@ -110,6 +115,10 @@ func (p *PaymentService) Withdraw(ctx context.Context, sig string, wallet string
 	}
 
 	account := store.Account(wallet)
+
+	p.mu.Lock()
+	defer p.mu.Unlock()
+
 	balance, err := p.BalanceStore.GetAccountBalance(account)
 	if err != nil {
 		return err
@@ -129,9 +138,20 @@ func (p *PaymentService) Withdraw(ctx context.Context, sig string, wallet string
 		total = p.WithdrawFee(total)
 	}
 
+	// The credit that is being paid out is debited before settling, so that
+	// the same earnings can never be paid twice. It is restored if the
+	// settlement fails.
+	credit := new(big.Int).Set(&balance.Credit)
+	if err := p.BalanceStore.AddAccountBalance(account, new(big.Int).Neg(credit)); err != nil {
+		return err
+	}
+
 	newBalance := big.NewInt(0)
 	txID, err := p.Settle(account, total, newBalance)
 	if err != nil {
+		if errRestore := p.BalanceStore.AddAccountBalance(account, credit); errRestore != nil {
+			logger.Printf("Withdraw from account %q failed to settle (%s) and failed to restore credit of %d: %s", account, err, credit, errRestore)
+		}
 		return err
 	}
 	logger.Printf("Withdraw from account %q for %d: %s", account, total, txID)
